@@ -238,6 +238,10 @@ def build_cases(tier, seed):
     if tier == "thorough":
         for w, st in (("denver_downtown/denver_demo.yaml", 300), ("denver_downtown/denver_demo_fleets.yaml", 300)):
             pass  # shipped scenarios use ISO end times in the yaml; the generated ones cover the same code paths
+    # an operator who switches every log off (no file-writing handler is installed then): every fourth scenario
+    for k, c in enumerate(cases):
+        if k % 4 == 1 and isinstance(c.get("spec"), dict) and "shipped" not in c["spec"]:
+            c["spec"]["global"] = dict(c["spec"].get("global") or {}, log_events=False, log_stats=False, log_instructions=False)
     # time stamps in inputs and logs are UTC whatever the host's time zone: every third case runs in a process set to another zone
     for k, c in enumerate(cases):
         if k % 3 == 2:
